@@ -410,7 +410,7 @@ func poolReplay(s *Summary, raw json.RawMessage) {
 	// against the model
 	want := poolObs{Params: c.Expect["params"].(string), Errors: int(c.Expect["errors"].(float64)), Aborted: c.Expect["aborted"].(bool),
 		Status: int(c.Expect["status"].(float64)), Length: int(c.Expect["length"].(float64)), Resp: c.Expect["resp"].(string), Req: c.Expect["req"].(string),
-		Router: c.Expect["router"].(string), Query: c.Expect["query"].(string), App: "own", Accept: "own"}
+		Router: c.Expect["router"].(string), Query: c.Expect["query"].(string), App: "own", Accept: c.Expect["accept"].(string)}
 	for _, k := range c.Expect["data"].([]any) {
 		want.Data = append(want.Data, k.(string))
 	}
